@@ -446,6 +446,11 @@ func runC06History(seed int64, idx int, tier string) *c06Result {
 		var werr error
 		if step >= 0 {
 			werr = h.DoWrite(step)
+			if werr == muxrun.ErrWriteStuck {
+				// the muxer is deadlocked: every request still pending would only time out
+				fail("hang", "%s", h.Hangs[len(h.Hangs)-1])
+				return res
+			}
 			if werr != nil {
 				break
 			}
